@@ -72,13 +72,27 @@ def _mk(orig, name):
     return run_pass
 
 
+def snap_text(fn, tgt):
+    """text of a snapshot: the function as printed by the compiler, followed by the context's data segment (so that the
+    text is a self-contained input for vyper.venom.parser and the back end)"""
+    if fn is None:
+        return str(tgt)
+    import textwrap
+    from vyper.venom.context import DataSection
+    s = str(fn)
+    ds = fn.ctx.data_segment
+    if ds:
+        s += "\n\ndata readonly {\n" + "\n".join(textwrap.indent(DataSection.__str__(d), "  ") for d in ds) + "\n}"
+    return s
+
+
 def _recorded(st, orig, name, self, a, k):
     fn = getattr(self, "function", None)
     tgt = fn if fn is not None else self.ctx
     fname = str(fn.name) if fn is not None else "<ctx>"
-    before = str(tgt)
+    before = snap_text(fn, tgt)
     r = orig(self, *a, **k)
-    after = str(tgt)
+    after = snap_text(fn, tgt)
     idx = st.n_invocations
     st.n_invocations += 1
     changed = after != before
